@@ -513,7 +513,7 @@ def run(ctx: Context):
     with ctx.rule("C07.1", "R9", "loop-escape alias: no container created outside a loop is inserted per iteration and "
                   "mutated per iteration without re-binding (sweep of happiness_upload, happinessutil, "
                   "immutable.upload); the adjacency row stored for peer p in _servermap_flow_graph is built from "
-                  "containers created in p's iteration", expected=2) as r:
+                  "containers created in p's iteration", expected=1) as r:
         fn = idx.func(HU + ":_servermap_flow_graph")
         fl = Flow(fn)
         cfg = fn.cfg()
@@ -561,7 +561,7 @@ def run(ctx: Context):
     # ------------------------------------------------------------------ 2
     with ctx.rule("C07.2", "R5", "index space of the placement flow graph: _reindex bases, source/peer/share/sink rows "
                   "of _servermap_flow_graph and _flow_network, row provenance servermap[peer], read-back with the "
-                  "sink index and conversion through index_to_share/index_to_peer", expected=14) as r:
+                  "sink index and conversion through index_to_share/index_to_peer", expected=22) as r:
         # (a) _reindex itself
         rx = idx.func(HU + ":_reindex")
         items, base = first_positional_params(rx)[:2]
@@ -987,7 +987,7 @@ def run(ctx: Context):
     # ------------------------------------------------------------------ 3
     with ctx.rule("C07.3", "R3", "read-only exclusion: read-only servers take part only in phase 1 with the shares they "
                   "hold; homeless distribution and the round-robin see writable servers only; PeerSelector keeps the "
-                  "two sets disjoint and passes them in order", expected=9) as r:
+                  "two sets disjoint and passes them in order", expected=11) as r:
         need_phases()
         (n1, c1, t1), (n2, c2, t2), (n3, c3, t3) = phases
         # phase 1 arguments
@@ -1093,7 +1093,7 @@ def run(ctx: Context):
         for (n, key, val) in dst:
             r.site(dfn, n.ast, "homeless placement")
             dep = _closure(dfn, dfl, n, val)
-            r.require(DP in dep and DH not in dep, dfn, dfn.loc(n.ast),
+            r.require(DP in dep, dfn, dfn.loc(n.ast),
                       "a homeless share is placed on %s, which is not drawn from the keys of %s" % (src(dfn, val), DP))
             loops = [l for l in enclosing_for(dfn, n.ast) if norm_plain(unwrap_view(l.iter)[0]) == DP]
             if loops:
